@@ -321,7 +321,82 @@ let sem_c19_external (e : Sexp.t) : Sexp.t =
     end
   | _ -> bad "sem_c19_external: %s" (to_string e)
 
+
+(* ---------- sem_c02 ---------- *)
+(* On an accepted program-vs-program task (structural-semantic check of the emitted problems):
+   1. no completed definition of a PRIVATE predicate is a conjecture (private definitions are
+      assumptions of both directions);
+   2. no problem contains two different axioms that are completed definitions of the same private
+      predicate (the private predicates of the two sides are kept apart by the renaming).
+   The known class F9 (the renamed name p_p already exists) violates 2; [all] reports it. *)
+let find_sub (s : string) (sub : string) : int option =
+  let n = String.length s and m = String.length sub in
+  let rec go i = if i + m > n then None else if String.sub s i m = sub then Some i else go (i + 1) in
+  go 0
+let strip_num_suffix (s : string) : (string * int) option =
+  match String.rindex_opt s '_' with
+  | Some i when i + 1 < String.length s ->
+    (match int_of_string_opt (String.sub s (i + 1) (String.length s - i - 1)) with
+     | Some n -> Some (String.sub s 0 i, n) | None -> None)
+  | _ -> None
+let sem_c02_gen ~(all : bool) (e : Sexp.t) : Sexp.t =
+  match e with
+  | L [ L [ task; _ ]; L [ A "ok"; _; L (A "problems" :: pbs) ] ] ->
+    let t = Ops_tasks.ext_task task in
+    (match t.et_specification with
+     | M.Datatypes.Coq_inr _ -> ok 0
+     | M.Datatypes.Coq_inl left ->
+       let public = M.External.ug_public_predicates t.et_user_guide in
+       let sp = M.External.task_spec_private t and pp = M.External.task_prog_private t in
+       let both = M.External.iset_inter pred_dec sp pp in
+       let renamed (p : pred) = if List.mem p both then { p with psym = p.psym @ Semlib.cl "_p" } else p in
+       let right_private = List.map renamed pp in
+       let privates = sp @ right_private in
+       (* F9 class: a renamed name already names a predicate of the task *)
+       let clash = List.exists (fun p -> let r = renamed p in List.mem r sp || List.mem r pp || List.mem r public) both in
+       let pbs = List.map problem pbs in
+       let result = ref None in
+       List.iter (fun (p : problem) ->
+           if !result = None then begin
+             (* 1 *)
+             List.iter (fun (a : pformula) ->
+                 if a.pf_role = PConjecture && !result = None then begin
+                   let name = string_of_cl a.pf_name in
+                   match find_sub name "completed_definition_of_" with
+                   | None -> ()
+                   | Some i ->
+                     let rest = String.sub name (i + 24) (String.length name - i - 24) in
+                     let cands = (match strip_num_suffix rest with
+                         | Some (s1, n1) -> (s1, n1) :: (match strip_num_suffix s1 with Some (s2, n2) -> [ (s2, n2) ] | None -> [])
+                         | None -> []) in
+                     if List.exists (fun (s, n) -> List.mem { psym = Semlib.cl s; parity = Conv.nat_of_int n } privates
+                                                   && not (List.mem { psym = Semlib.cl s; parity = Conv.nat_of_int n } public)) cands
+                     then result := Some (L [ A "cex"; S "completed definition of a private predicate emitted as conjecture";
+                                              of_str p.pb_name; of_pformula a ])
+                 end) p.pb_formulas;
+             (* 2 *)
+             if (all || not clash) && !result = None then begin
+               let defs = List.filter_map (fun (a : pformula) ->
+                   if a.pf_role = PAxiom then
+                     (match M.External.head_predicate a.pf_formula with
+                      | Some hp when List.mem hp privates -> Some (hp, a)
+                      | _ -> None)
+                   else None) p.pb_formulas in
+               List.iter (fun (hp, (a : pformula)) ->
+                   match List.find_opt (fun (hp', (b : pformula)) -> hp' = hp && b.pf_formula <> a.pf_formula) defs with
+                   | Some (_, b) when !result = None ->
+                     result := Some (L [ A "cex"; S "two different completed definitions of one private predicate are axioms of a problem (private predicates of the two sides merged)";
+                                         of_str p.pb_name; of_pred hp; of_pformula a; of_pformula b ])
+                   | _ -> ()) defs
+             end
+           end) pbs;
+       (match !result with Some r -> r | None -> ok (List.length pbs)))
+  | L [ _; _ ] -> ok 0
+  | _ -> bad "sem_c02: %s" (to_string e)
+
 let () =
+  Ops.register "sem_c02" (sem_c02_gen ~all:false);
+  Ops.register "sem_c02_all" (sem_c02_gen ~all:true);
   Ops.register "sem_break" sem_break;
   Ops.register "sem_c19_strong" sem_c19_strong;
   Ops.register "sem_c03" (sem_c03_gen ~all:false);
